@@ -128,10 +128,12 @@ def run(c):
     r = c.rng("usage")
     uc = []
     for i in range(500 if c.quick() else 5000):
-        tl = r.choice([0, 1, 10 ** 9, 5 * 10 ** 8, r.randrange(1 << 40)])
+        tl = r.choice([0, 1, 10 ** 9, 5 * 10 ** 8, 2 * 10 ** 8, 1500 * 10 ** 6, r.randrange(1 << 40)])
         ml = r.choice([0, 1, 1 << 20, 1 << 30, r.randrange(1 << 40), (1 << 64) - 1])
         sec = r.choice([0, 1, tl // 10 ** 9, r.randrange(100)])
-        usec = r.choice([0, 1, 999999, (tl % 10 ** 9) // 1000, r.randrange(10 ** 6)])
+        # just below, at and just above the bound (the comparison is in nanoseconds: one microsecond over is over)
+        usec = r.choice([0, 1, 999999, (tl % 10 ** 9) // 1000, min(999999, (tl % 10 ** 9) // 1000 + r.choice([1, 2, 400, 999])), max(0, (tl % 10 ** 9) // 1000 - 1),
+                         r.randrange(10 ** 6)])
         rss = r.choice([0, 1, ml >> 10, (ml >> 10) + 1, r.randrange(1 << 30)]) & ((1 << 52) - 1)
         uc.append({"id": i, "kind": "usage", "sec": sec, "usec": usec, "maxrss": rss, "tl": tl, "ml": ml & ((1 << 63) - 1)})
     uo = c.run_harness(exe, uc, env=env)
